@@ -37,9 +37,9 @@ func drawConfig(rt *rapid.T) cbConfig {
 // recoveryHeavy biases towards arrival patterns inside the recovery period.
 func workload(w *cbWorld, recoveryHeavy bool) {
 	rt := w.r.T
-	nops := rapid.IntRange(5, 120).Draw(rt, "ops")
+	nops := rapid.IntRange(5, deep(120, 400)).Draw(rt, "ops")
 	errBias := rapid.SampledFrom([]int{1, 5, 9}).Draw(rt, "error-bias") // tenths
-	maxReq := 80
+	maxReq := deep(80, 250)
 	statusFor := func() int {
 		if rapid.IntRange(0, 9).Draw(rt, "err?") < errBias {
 			return rapid.SampledFrom([]int{502, 504, 500, 503}).Draw(rt, "err-status")
